@@ -61,7 +61,7 @@ func writeEvidence(prop, tier string, results []*harnessResult, violations int, 
 		harnesses = append(harnesses, map[string]any{
 			"name": r.spec.Name, "package": r.spec.Pkg, "claim": r.spec.Claim, "bounds": r.params,
 			"paths": sh.Paths, "branch_decisions": sh.Decisions, "instructions": sh.Steps, "max_path_instructions": sh.MaxPathSteps,
-			"path_ends": sh.PathsEnded, "queries": sh.Queries, "solver_time_s": round2(sh.SolverTime), "wall_s": round2(r.wall),
+			"path_ends": sh.PathsEnded, "queries": sh.Queries, "feasibility_by_evaluated_witness": sh.EvalWitness, "solver_time_s": round2(sh.SolverTime), "wall_s": round2(r.wall),
 			"inconclusive": sh.Inconclusive, "violations": viol, "native_replays": rp,
 		})
 		if r.spec.Claim != "" {
